@@ -7,4 +7,4 @@ Definition op_clear : N := c_INDEX_OP_CLEARED.
 Definition op_ins : N := c_INDEX_OP_ENTRYINSERTED.
 Definition op_rem : N := c_INDEX_OP_ENTRYREMOVED.
 Extraction "index_model.ml" init_state step cfg_fixed cfg_pinned subscribed index_at kids_of lookup replay
-  pmatch op_clear op_ins op_rem expand remove_child_quiet with_out has_node is_prefix parent_of.
+  pmatch op_clear op_ins op_rem expand expand_multi remove_child_quiet with_out has_node is_prefix parent_of.
